@@ -78,6 +78,7 @@ class RandomSeam:
 
     # -- install
     def install(self):
+        self._depth = getattr(self, "_depth", 0) + 1
         if self.installed:
             return
         self._orig = {
@@ -104,7 +105,8 @@ class RandomSeam:
         self.installed = True
 
     def uninstall(self):
-        if not self.installed:
+        self._depth = max(0, getattr(self, "_depth", 0) - 1)
+        if not self.installed or self._depth > 0:
             return
         secrets.token_bytes = self._orig["secrets.token_bytes"]
         os.urandom = self._orig["os.urandom"]
@@ -147,6 +149,7 @@ class ChoiceSeam:
         return self.chooser(seq)
 
     def install(self):
+        self._depth = getattr(self, "_depth", 0) + 1
         if self.installed:
             return
         self._orig = {"random.choice": random.choice, "secrets.choice": secrets.choice}
@@ -155,7 +158,8 @@ class ChoiceSeam:
         self.installed = True
 
     def uninstall(self):
-        if self.installed:
+        self._depth = max(0, getattr(self, "_depth", 0) - 1)
+        if self.installed and self._depth == 0:
             random.choice = self._orig["random.choice"]
             secrets.choice = self._orig["secrets.choice"]
             self.installed = False
